@@ -103,6 +103,19 @@ def positional_containers(P, f, loops):
                     out[t.id] = (lp.coll, comp, "dict-by-label" if key_is_label else "dict-other", lp)
                 else:
                     out[t.id] = (lp.coll, comp, "list", lp)
+    # a sequence built element by element from a positional sequence is positional in the same walk: [f(m) for m in members]
+    for _ in range(2):
+        for st, t, v, k in stores(f):
+            if k != "assign" or not isinstance(t, ast.Name) or t.id in out or v is None:
+                continue
+            comp = v
+            hops = 0
+            while isinstance(comp, ast.Call) and comp.args and src(comp.func).split(".")[-1] in ("array", "asarray", "vstack", "stack", "list", "tuple") and hops < 3:
+                comp = comp.args[0]
+                hops += 1
+            if isinstance(comp, (ast.ListComp, ast.GeneratorExp)) and len(comp.generators) == 1 and not comp.generators[0].ifs and isinstance(comp.generators[0].iter, ast.Name) and comp.generators[0].iter.id in out and out[comp.generators[0].iter.id][2] == "list":
+                base = out[comp.generators[0].iter.id]
+                out[t.id] = (base[0], comp, "list", base[3])
     # lists grown by append inside a label loop
     for lp in loops:
         if lp.is_comp:
